@@ -32,6 +32,7 @@ def parseOp (j : J) : Except String (Option AOp) := do
   | [J.str "degapped_relative_to", n] => pure (some (.degap (← n.toStr)))
   | [J.str "sample", locs, ml] => pure (some (.sample (← locs.toListOf J.toInt) (← ml.toInt)))
   | [J.str "to_type_roundtrip"] => pure (some .reparse)
+  | [J.str "filter_mask", m] => pure (some (.filterMask (← m.toListOf J.toBool)))
   | [J.str "keep", locs] => pure (some (.keep (← locs.toListOf (J.toPairOf J.toInt J.toInt))))
   | _ => pure none
 
@@ -39,7 +40,7 @@ def runA (dna : Bool) (a : AlnA) : List (Option AOp) → List J
   | [] => []
   | none :: _ => []
   | some op :: ops => match stepA dna a op with
-    | .error e => [J.obj [("err", J.str (errStr e))]]
+    | .error e => [J.obj [("err", J.str (match op with | .filterMask _ => "None" | _ => errStr e))]]
     | .ok (a', dna') => alnJ a' :: runA dna' a' ops
 
 def runD (dna : Bool) (a : AlnD) : List (Option AOp) → List J
@@ -47,7 +48,7 @@ def runD (dna : Bool) (a : AlnD) : List (Option AOp) → List J
   | none :: _ => []
   | some op :: ops => match stepD dna a op with
     | none => []
-    | some (.error e) => [J.obj [("err", J.str (errStr e))]]
+    | some (.error e) => [J.obj [("err", J.str (match op with | .filterMask _ => "None" | _ => errStr e))]]
     | some (.ok (a', dna')) => denseJ a' :: runD dna' a' ops
 
 def handle (cmd : String) (j : J) : Except String J :=
